@@ -222,7 +222,7 @@ pub fn specs() -> Vec<CheckSpec> {
             generate: gen_w1,
             runs_quick: 40_000,
             runs_thorough: 2_000_000,
-            rule: "crash-restart fault: at seed-chosen operation boundaries the book / market is serialised (to_string, to_string_pretty, save_json compact/pretty) and restored (from_str / load_json) into the same or another level count; the original is dropped (crash) or kept as a twin; immediate complete-observation equality, lock-step equality under all later operations (reference engine too), drain probe; torn-write fault: every strict prefix of a written file must be rejected by load_json. Non-trivial = at least one restart or twin and at least one trade",
+            rule: "crash-restart fault: at seed-chosen operation boundaries the book / market is serialised (to_string, to_string_pretty, save_json compact/pretty) and restored (from_str / load_json) into the same or another level count; the original is dropped (crash) or kept as a twin; immediate complete-observation equality, lock-step equality under all later operations (reference engine too), drain probe; torn-write fault: every strict prefix of a written file must be rejected by load_json. Non-trivial = at least one restart or twin and at least one trade Half of the torn-write enumerations cut the file in place on the re-used snapshot path",
             finalize: None,
             preflight: None,
             nontrivial: nt_c07,
@@ -230,7 +230,7 @@ pub fn specs() -> Vec<CheckSpec> {
             stub: NO_STUB,
             assumptions: ASSUME_BOOK,
             explanation: "crash/restart with only durable (JSON) state surviving, torn-write enumeration per sampled file, twins driven in lock-step",
-            expected_probes: &["crash_restart", "twin_kept", "restart_with_partially_filled_order", "restart_with_unplaced_order", "restart_while_halted", "restart_into_other_level_count", "torn_write_offset", "snapshot_over_longer_file", "drain_probe"],
+            expected_probes: &["torn_write_in_place", "crash_restart", "twin_kept", "restart_with_partially_filled_order", "restart_with_unplaced_order", "restart_while_halted", "restart_into_other_level_count", "torn_write_offset", "snapshot_over_longer_file", "drain_probe"],
         },
         CheckSpec {
             id: "C08",
@@ -252,7 +252,7 @@ pub fn specs() -> Vec<CheckSpec> {
             generate: gen_w4,
             runs_quick: 16_000,
             runs_thorough: 200_000,
-            rule: "complete simulations (1..200 steps) of every composition of the built-in agent types, single- and multi-asset, combined through the derive macros; digest of all orders, trades, recorded level-2 history and per-step volumes compared across: two in-process runs of the shipped runner, the documented manual loop driven by the harness's seeded generator, a separate OS process under perturbations (progress bar on, shifted heap, other environment / cwd, stderr null / pipe / file, non-main thread), and (guaranteed-activity configurations) 16 distinct seeds not all equal. Non-trivial = at least 2 steps",
+            rule: "complete simulations (1..200 steps) of every composition of the built-in agent types, single- and multi-asset, combined through the derive macros; digest of all orders, trades, recorded level-2 history and per-step volumes compared across: two in-process runs of the shipped runner, the documented manual loop driven by the harness's seeded generator, a separate OS process under perturbations (progress bar on, shifted heap, other environment / cwd, stderr null / pipe / file, non-main thread), and (guaranteed-activity configurations) 16 distinct seeds not all equal. Non-trivial = at least 2 steps A runner / manual-loop mismatch is retried with 15 other seedable generators and 0..512 warm-up draws before it is reported; two runner calls on one environment with the environment value moved in memory in between must equal the same calls without the move",
             finalize: None,
             preflight: None,
             nontrivial: nt_ops,
@@ -260,7 +260,7 @@ pub fn specs() -> Vec<CheckSpec> {
             stub: NO_STUB,
             assumptions: &["agent parameters consistent with the environment", "one OS, one build: cross-machine reproducibility is out of reach of a single sandbox", "sampling, not enumeration"],
             explanation: "replay determinism: same seed and parameters must give bit-identical observable output under process-level perturbations",
-            expected_probes: &["in_process_rerun", "manual_loop_with_seam_rng", "separate_process", "progress_bar_branch", "shifted_heap", "non_main_thread", "other_environment", "seeds_differ_checked", "seed_domain_end_checked"],
+            expected_probes: &["environment_relocated_between_runner_calls", "in_process_rerun", "manual_loop_with_seam_rng", "separate_process", "progress_bar_branch", "shifted_heap", "non_main_thread", "other_environment", "seeds_differ_checked", "seed_domain_end_checked"],
         },
         CheckSpec {
             id: "C10",
@@ -357,7 +357,7 @@ pub fn specs() -> Vec<CheckSpec> {
             generate: gen_w4,
             runs_quick: 80_000,
             runs_thorough: 1_500_000,
-            rule: "simulations of the built-in agents in the manual loop, one update call per agent group at a time; the harness reads the instruction queue (verification hook) and the order list before and after every update and checks every created order and every cancellation (grid, range, side of the observed mid-price, volume, trader id, ownership, active when looked at), the deterministic corners of the activity rules (probability 0 / >= 1) and that nothing aborts; generator fault injection (boundary draws 0, all-ones, 1, top bit at sparse indices); tick 1..10, heavy-tailed price distributions (sigma up to 10), empty / one-sided / two-sided starting books, 1..200 steps. Non-trivial = at least 3 agent orders checked",
+            rule: "simulations of the built-in agents in the manual loop, one update call per agent group at a time; the harness reads the instruction queue (verification hook) and the order list before and after every update and checks every created order and every cancellation (grid, range, side of the observed mid-price, volume, trader id, ownership, active when looked at), the deterministic corners of the activity rules (probability 0 / >= 1) and that nothing aborts; generator fault injection (boundary draws 0, all-ones, 1, top bit at sparse indices); tick 1..10, heavy-tailed price distributions (sigma up to 10), empty / one-sided / two-sided starting books, 1..200 steps. Non-trivial = at least 3 agent orders checked Interior probabilities: Bernoulli tallies per (agent kind, action, single/multi-asset, probability quartile) over the whole batch against an exact Bernstein bound (runs without generator fault injection only)",
             finalize: Some(crate::w4agents::finalize_bern),
             preflight: None,
             nontrivial: nt_c16,
@@ -372,7 +372,7 @@ pub fn specs() -> Vec<CheckSpec> {
             generate: gen_w4,
             runs_quick: 100_000,
             runs_thorough: 1_500_000,
-            rule: "one momentum agent group (single- and multi-asset) under mid-price paths imposed by a harness quoting client (rising, falling, mixed, flat; half-tick mids); the harness recomputes M and demand*tanh(scale*M)/n from the mids it observed; direction of every order must follow the sign of M, nothing when M = 0; at saturated demand (|p| >= 1) exactly n market (and, when order_ratio*|p| >= 1, n limit) orders on that side; mirrored run (path mirrored about a grid level, same seed, market orders only) must swap buys and sells step by step. Non-trivial = steps with positive and with negative momentum",
+            rule: "one momentum agent group (single- and multi-asset) under mid-price paths imposed by a harness quoting client (rising, falling, mixed, flat; half-tick mids); the harness recomputes M and demand*tanh(scale*M)/n from the mids it observed; direction of every order must follow the sign of M, nothing when M = 0; at saturated demand (|p| >= 1) exactly n market (and, when order_ratio*|p| >= 1, n limit) orders on that side; mirrored run (path mirrored about a grid level, same seed, market orders only) must swap buys and sells step by step. Non-trivial = steps with positive and with negative momentum Interior probabilities: per-step tallies of market / limit orders per direction and probability quartile against an exact Bernstein bound over the whole batch",
             finalize: Some(crate::w4agents::finalize_bern),
             preflight: None,
             nontrivial: nt_c17,
@@ -417,7 +417,7 @@ pub fn specs() -> Vec<CheckSpec> {
             generate: gen_shape,
             runs_quick: 20_000,
             runs_thorough: 400_000,
-            rule: "a generated catalogue of struct shapes (64 per macro; 1..8 fields, four probe agent types with repetitions, fields that are themselves derived sets up to depth 2, field names not in alphabetical order) for #[derive(AgentSet)] and #[derive(MarketAgentSet)] (instantiated for MarketEnv<1,10>, <2,3>, <3,1>); log of the derived update == log of the hand-written sequence == the sequence implied by the declaration order, draw by draw (one continuous generator stream) and order count by order count (one shared environment), over 1..4 calls and random seeds. Non-trivial: every run; distinct = (macro, shape, instantiation, calls)",
+            rule: "a generated catalogue of struct shapes (64 per macro; 1..8 fields, four probe agent types with repetitions, fields that are themselves derived sets up to depth 2, field names not in alphabetical order) for #[derive(AgentSet)] and #[derive(MarketAgentSet)] (instantiated for MarketEnv<1,10>, <2,3>, <3,1>); log of the derived update == log of the hand-written sequence == the sequence implied by the declaration order, draw by draw (one continuous generator stream) and order count by order count (one shared environment), over 1..4 calls and random seeds. Non-trivial: every run; distinct = (macro, shape, instantiation, calls) Members draw through next_u64 / next_u32 / fill_bytes in turn; the per-thread trace of RngCore calls is compared; shared generator from a family of 16; a member failing mid-update (caught) in 30 % of the runs",
             finalize: Some(crate::w4probe::finalize),
             preflight: None,
             nontrivial: nt_any,
@@ -425,7 +425,7 @@ pub fn specs() -> Vec<CheckSpec> {
             stub: &["probe agents (harness-defined agent types that log their calls) instead of the built-in agents"],
             assumptions: &["covers the compiled catalogue only (finite family of programs); thorough additionally compiles a fresh catalogue derived from VERIF_SEED"],
             explanation: "call-by-call and draw-by-draw comparison with the hand-written equivalent over a generated family of struct shapes",
-            expected_probes: &["agent_set", "market_agent_set", "nested_set_shape", "repeated_type_shape", "shape_1_field", "shape_8_fields"],
+            expected_probes: &["member_failed_mid_update", "generator_other_family_member", "generator_calls_compared", "agent_set", "market_agent_set", "nested_set_shape", "repeated_type_shape", "shape_1_field", "shape_8_fields"],
         },
     ]
 }
